@@ -21,6 +21,8 @@ impl State {
             Entry::Vacant(entry) => {
                 self.last_string_id.next();
                 let id = self.last_string_id;
+                #[cfg(desert_verif)]
+                crate::verif::emit("str", id.0 as i64, 1, 0, 0, entry.key());
                 self.strings_by_id.insert(id, entry.key().clone());
                 let result = StoreStringResult::StringIsNew {
                     new_id: id,
@@ -38,6 +40,8 @@ impl State {
             Entry::Vacant(entry) => {
                 self.last_ref_id.next();
                 let id = self.last_ref_id;
+                #[cfg(desert_verif)]
+                crate::verif::emit("ref", id.0 as i64, 1, 0, 0, "");
                 self.refs_by_id.insert(id, value);
                 let result = StoreRefResult::RefIsNew { new_id: id, value };
                 entry.insert(id);
